@@ -5,7 +5,7 @@
 
 using namespace vh;
 
-static long gfsym_ncases(const std::string& tier) { return tier == "thorough" ? 16000 : 128; }
+static long gfsym_ncases(const std::string& tier) { return tier == "thorough" ? 80000 : 128; }
 
 namespace {
 // 16-point Gauss-Legendre nodes/weights on [-1,1]
